@@ -10,6 +10,7 @@ PROP = "C17"
 THEOREM_FILE = "Props/C17.v"
 EXTRA_THEOREM_FILES = ["Props/C17_src.v", "Props/C17_src_nmap.v", "Props/C17_src_closed.v"]     # source tie: translated source = model (DESIGN 5.1b)
 EXTRA_THEOREM_FILES.append("Props/C17_code.v")   # CODB: code-level theorems (the C17 theorems stated about the regenerated definitions)
+EXTRA_THEOREM_FILES.append("Props/C17_src_g.v")     # SRCG: IPGlob.__repr__
 RULE = ("glob strings: every field shape (k plain octets, optional hyphen octet, asterisks) x boundary octets "
         "(0,1,9,10,99,100,199,200,249,250,255,256), ill-shaped field orders, 3/5 fields, leading-zero / sign / space / "
         "underscore numerals, all single edits and sampled double edits of valid globs over '0-9 . * - space + _', random "
